@@ -173,8 +173,20 @@ func (p *C10) Gen(seed uint64, i int, tier string) *scen.Scenario {
 			o := setting(true)
 			o.Op, o.L = "set", l.id
 			sc.Setup = append(sc.Setup, o)
-		case c < 86:
+		case c < 84:
 			sc.Setup = append(sc.Setup, scen.Op{Op: "pkg_set_level", Lvl: scen.Pick(r, levels)})
+		case c < 86:
+			// the package-level forms act on the default logger
+			if r.Bool() {
+				sc.Setup = append(sc.Setup, scen.Op{Op: "set", L: 0, Kind: "skip", I: int64(r.Range(0, 3)), Name: "pkg"})
+			} else if len(loggers) < 12 {
+				sc.Setup = append(sc.Setup, scen.Op{Op: "with", L: 0, R: nextID, Kind: "skip", I: int64(r.Range(0, 3)), Name: "pkg"})
+				loggers[0].children++
+				nl := &lg{id: nextID}
+				loggers = append(loggers, nl)
+				byID[nextID] = nl
+				nextID++
+			}
 		case c < 90:
 			sc.Setup = append(sc.Setup, scen.Op{Op: "parent", L: l.id}, scen.Op{Op: "root", L: l.id})
 		case c < 95:
